@@ -12,7 +12,7 @@ PR = "src/reader/page_reader.c"
 REP_SIZE, DEF_SIZE, PAGE_SIZE, WIDTH_BYTE = 12, 24, 200, 9
 
 
-def trace(P, max_rep=0, max_def=0, want_rep=True, want_def=True, encoding=0, has_dict=True, ptype=None):
+def trace(P, max_rep=0, max_def=0, want_rep=True, want_def=True, encoding=0, has_dict=True, ptype=None, rep_size=None, def_size=None):
     fn = P.fn("carquet_read_data_page_v1", PR)
     ro = sem.field_offsets(P, "carquet_column_reader")
     ho = sem.field_offsets(P, "parquet_data_page_header")
@@ -25,9 +25,9 @@ def trace(P, max_rep=0, max_def=0, want_rep=True, want_def=True, encoding=0, has
              ("hdr", ho["num_values"]): 0, ("hdr", ho["encoding"]): encoding}
     sizes = []
     if max_rep > 0 and want_rep:
-        sizes.append(REP_SIZE)
+        sizes.append(REP_SIZE if rep_size is None else rep_size)
     if max_def > 0 and want_def:
-        sizes.append(DEF_SIZE)
+        sizes.append(DEF_SIZE if def_size is None else def_size)
     nread = [0]
 
     def off(p):
@@ -54,3 +54,44 @@ def trace(P, max_rep=0, max_def=0, want_rep=True, want_def=True, encoding=0, has
     ret, ev, heap = sem.run(P, fn, args, heap0=heap0, hooks=hooks, single=True, max_forks=64, budget=200000,
                             memory=lambda base, o, size: WIDTH_BYTE if base == "page" else None)
     return ret, ev, heap.get(("nread", 0))
+
+
+def check_level_extents(ctx, rule="R4.extent", key="level-extents|" + PR + ":carquet_read_data_page_v1"):
+    """Length prefixes of the level blocks around every boundary of a 200-byte page: the reader accepts the page
+    exactly when prefix + block fit in what is left, and everything it then hands to a decoder lies inside the page."""
+    P = ctx.P
+    fn = P.fn("carquet_read_data_page_v1", PR)
+    what = ("for level-block length prefixes around every boundary of a %d-byte page the reader accepts exactly the pages whose blocks "
+            "fit, and every byte range it hands to a level / value decoder lies inside the page (abstract execution)" % PAGE_SIZE)
+    bad = None
+    n = 0
+    try:
+        for max_rep, max_def in ((1, 1), (0, 1), (1, 0)):
+            for r in ((0, 12, 187, 188, 191, 192, 193, 196, 197, 200) if max_rep else (0,)):
+                for d in ((0, 24, 172, 176, 180, 184, 185, 188, 192, 195, 196, 197, 200, 201, 4000) if max_def else (0,)):
+                    n += 1
+                    ret, ev, nread = trace(P, max_rep=max_rep, max_def=max_def, rep_size=r, def_size=d, encoding=0)
+                    left = PAGE_SIZE
+                    fits = True
+                    for on, sz in ((max_rep, r), (max_def, d)):
+                        if not on:
+                            continue
+                        if left < 4 or sz > left - 4:
+                            fits = False
+                            break
+                        left -= 4 + sz
+                    sc = "max_rep %d max_def %d, repetition block %d bytes, definition block %d bytes" % (max_rep, max_def, r, d)
+                    for e in ev:
+                        if e[0] in ("levels", "indices", "plain") and isinstance(e[1], tuple) and e[1][0] == "page":
+                            o, sz = e[1][1], e[2]
+                            if not isinstance(o, int) or not isinstance(sz, int) or o < 0 or sz < 0 or o + sz > PAGE_SIZE:
+                                bad = bad or "%s: the %s decoder is handed page bytes [%s, %s+%s) of a %d-byte page" % (sc, e[0], o, o, sz, PAGE_SIZE)
+                    if fits and ret != 0:
+                        bad = bad or "%s: the blocks fit but the page is refused (%s)" % (sc, ret)
+                    if not fits and ret == 0:
+                        bad = bad or "%s: the blocks do not fit in the page but the page is accepted" % sc
+    except sem.Inconclusive as ex:
+        ctx.inconclusive(rule, key, P.where(fn.body), what, str(ex))
+        return 0
+    ctx.ob(rule, key, P.where(fn.body), what, bad is None, bad or "")
+    return n
